@@ -134,7 +134,12 @@ fn one_voice(ctx: &mut Ctx, env: &Env, rng: &mut Rng, base: &Engine, rv: &RefVoi
             }
             let mut e = base.clone();
             e.condition.set_msd_threshold(1, th);
-            e.condition.set_msd_threshold(k, rng.f64());
+            let tk = match rng.below(4) {
+                0 => 0.0,
+                1 => 1.0,
+                _ => rng.f64(),
+            };
+            e.condition.set_msd_threshold(k, tk);
             e.condition.set_gv_weight(k, rng.uniform(0.0, 2.0));
             if let Ok(r) = trajectories(&e, labels.clone()) {
                 if !bits_eq2(&r.lf0, &base_run.lf0) {
